@@ -15,13 +15,15 @@ package main
 //	1  f reached an allocation whose symbolic size can exceed 2^31 elements
 //	2  f reached an allocation of 65..2^31 elements (above the engine's
 //	   concretisation bound; legitimate by the property, not explored further)
-//	3  f exhausted the local step or decision budget
+//	3  f exhausted the local step budget (or the call depth)
+//	4  f exhausted the local budget of symbolic decisions
 //
 // After 1..3 the interpreted stack of f has been abandoned (its deferred
 // functions did not run): the harness must only assert and return.
 
 import (
 	"go/token"
+	"go/types"
 	"strings"
 
 	"golang.org/x/tools/go/ssa"
@@ -61,6 +63,8 @@ func init() {
 				code = 1
 			case pe.kind == "bound" && strings.Contains(pe.msg, "allocation size"):
 				code = 2
+			case pe.kind == "unwind" && strings.Contains(pe.msg, "symbolic decisions"):
+				code = 4
 			case pe.kind == "unwind":
 				code = 3
 			default:
@@ -81,4 +85,55 @@ func init() {
 	}
 	reg("github.com/ohler55/slip.zzC09Guard", guard)
 	reg("github.com/ohler55/slip/pkg/cl.zzC09Guard", guard)
+}
+
+// bytes.Repeat(b, count) with a symbolic count (the interpreted body trips an
+// engine limitation on its chunked copy loop): same contract as the library —
+// a negative count panics with a plain string; the result has len(b)*count
+// bytes, allocated under the same size rules as a MakeSlice instruction.
+func init() {
+	reg("bytes.Repeat", func(fr *frame, fn *ssa.Function, args []Val) Val {
+		b, _ := args[0].([]Val)
+		negative := func() {
+			in.path.faults = append(in.path.faults, faultRec{kind: "native-panic", site: "bytes.Repeat", msg: "bytes: negative Repeat count"})
+			panic(targetPanic{Iface{t: types.Typ[types.String], v: "bytes: negative Repeat count"}})
+		}
+		var n int64
+		switch c := args[1].(type) {
+		case int64:
+			if c < 0 {
+				negative()
+			}
+			n = c
+		case *Term:
+			t := toBV(c, 64)
+			if in.ex.branch(in.path, mkCmp(OSlt, t, mkBV(0, 64))) {
+				negative()
+			}
+			if len(b) == 0 {
+				return []Val{}
+			}
+			if in.ex.branch(in.path, mkCmp(OSlt, mkBV(uint64(1)<<31, 64), t)) {
+				in.path.faults = append(in.path.faults, faultRec{kind: "hugealloc", site: "bytes.Repeat", msg: "allocation size can exceed 2^31 elements"})
+				panic(pathEnd{"hugealloc", "bytes.Repeat"})
+			}
+			if in.ex.branch(in.path, mkCmp(OSlt, mkBV(64, 64), t)) {
+				panic(pathEnd{"bound", "symbolic allocation size above the engine bound of 64"})
+			}
+			n = concretize(t, 64, 0, 64)
+		default:
+			unsupported("bytes.Repeat: count")
+		}
+		if n*int64(len(b)) > 1<<26 {
+			in.path.faults = append(in.path.faults, faultRec{kind: "hugealloc", site: "bytes.Repeat", msg: "large allocation"})
+			panic(pathEnd{"hugealloc", "bytes.Repeat"})
+		}
+		out := make([]Val, 0, int(n)*len(b))
+		for i := int64(0); i < n; i++ {
+			for _, e := range b {
+				out = append(out, copyVal(e))
+			}
+		}
+		return out
+	})
 }
